@@ -1,8 +1,8 @@
 SPECIFICATION Spec
 CONSTANTS
-  Programs <- ProgramsTLS
-  Clients = {1}
-  Kinds = {"plain", "tls"}
+  Programs <- ProgramsThorough
+  Clients = {1, 2}
+  Kinds = {"plain"}
   CloseTarget = "own"
   RegisterGuard = TRUE
   Record = TRUE
